@@ -175,6 +175,13 @@ class EntryTranslator(py2lean.Translator):
             if x.startswith("(some "):
                 return ("true" if neg else "false"), ""
             return "(%s%s.isNone)" % ("!" if neg else "", x), ""
+        if isinstance(node, ast.IfExp):
+            # `a if c else b`: a test that is a literal at this call shape selects its arm (as for `if` statements)
+            c = self.pure(node.test, scope)
+            v = _fold(c)
+            if v is not None:
+                return self.expr(node.body if v else node.orelse, scope)
+            return "(if %s then %s else %s)" % (c, self.pure(node.body, scope), self.pure(node.orelse, scope)), ""
         return py2lean.Translator.expr(self, node, scope)
 
     def pure(self, node, scope):
@@ -495,3 +502,379 @@ def entry_text():
 def entry_generated_files():
     text, failed = entry_text()
     return {ENTRY_REL: text}, failed
+
+
+# =====================================================================================================================
+# Round 3: the NUMPY-LEVEL BODIES of the homogeneous family, translated from source with harness/py2lean2.py
+# (Generated/C03Src.lean) and proved equal to `fromVec`, `ctorMat` / `ctorRotation` / `ctorTranslation` /
+# `ctorUniformScale` / `ctorNonUniformScale` / `identityOf` by GenProps/C03Src.lean.  Vocabulary: Core/C03Src.lean.
+#   properties      Homogeneous.n_dims, Affine.linear_component / translation_component, Rotation.rotation_matrix,
+#                   UniformScale.scale, NonUniformScale.scale
+#   setters         Homogeneous / Affine / AlignmentAffine ._set_h_matrix (copy and skip_checks as variables),
+#                   Rotation / AlignmentRotation .set_rotation_matrix
+#   constructors    __init__ of the seven non-alignment classes, the seven init_identity
+#   vector form     _from_vector_inplace of the ten classes that define one
+# plus the method resolution of `__init__`, `set_rotation_matrix`, `init_identity` and the properties
+# (Generated.C03.methodTable2, obligation `methodTable2_ok`) and the defaults of `copy` / `skip_checks`.
+# =====================================================================================================================
+from . import py2lean2 as P2
+
+SRC_REL = os.path.join("MenpoModel", "Generated", "C03Src.lean")
+SRC_TARGETS = ["MenpoModel.Generated.C03Src", "MenpoModel.GenProps.C03Src"]
+SRC_OBLIGATIONS = 44
+METHODS2 = ["__init__", "set_rotation_matrix", "init_identity", "n_dims", "linear_component", "translation_component",
+            "rotation_matrix", "scale"]
+SRC_EXC = {"ValueError": ".error .shape", "NotImplementedError": ".error .notImplemented"}
+
+
+class SrcTranslator(P2.Translator2M):
+    """Translator2M on a copy of the function's AST in which the keyword arguments of every call are sorted by name
+    (`f(x, skip_checks=True, copy=False)` and `f(x, copy=False, skip_checks=True)` are the same call: the patterns are
+    written in sorted order)."""
+
+    def function(self, fn, arg_names, ind=2, allow_unused=()):
+        node, _src = P2.source_ast(fn)
+        for n in ast.walk(node):
+            if isinstance(n, ast.Call):
+                if any(k.arg is None for k in n.keywords):
+                    raise P2.Untranslatable("call with **kwargs: `%s`" % ast.unparse(n))
+                n.keywords.sort(key=lambda k: k.arg)
+        a = node.args
+        params = [x.arg for x in a.posonlyargs + a.args + a.kwonlyargs]
+        if a.vararg:
+            params.append(a.vararg.arg)
+        if a.kwarg:
+            params.append(a.kwarg.arg)
+        mentioned = {n.id for st in node.body for n in ast.walk(st) if isinstance(n, ast.Name)}
+        for p in params:
+            if p not in arg_names and not (p in allow_unused and p not in mentioned):
+                raise P2.Untranslatable("signature of %s changed: %s" % (node.name, ast.unparse(node.args)))
+        return self.block(list(node.body), dict(arg_names), ind, self.top_ctx())
+
+
+def _float3(n, d):
+    return "(%d : Rat)" % n if d == 1 else "((%d : Rat) / %d)" % (n, d)
+
+
+def _lean_bool(text, what):
+    if text == "True":
+        return "true"
+    if text == "False":
+        return "false"
+    raise P2.Untranslatable("default of %s is `%s`, not a Boolean literal" % (what, text))
+
+
+def method_table2():
+    """[(family class, [supplier of each of METHODS2 or None])] read from the live MROs"""
+    from . import extract_c03
+    fam = extract_c03.family_classes()
+    names = [n for n in extract_c03.ORDER if n in fam] + sorted(n for n in fam if n not in extract_c03.ORDER)
+    return [(n, [next((k.__name__ for k in fam[n].__mro__ if m in k.__dict__), None) for m in METHODS2])
+            for n in names]
+
+
+def _plain(f):
+    """the function behind a method / classmethod / property of a class __dict__"""
+    if isinstance(f, property):
+        return f.fget
+    return getattr(f, "__func__", f)
+
+
+def src_items():
+    """[(lean signature ending in `:=`, thunk -> body, stub body)] in definition order"""
+    from . import extract_c03
+    fam = extract_c03.family_classes()
+    T = SrcTranslator
+
+    def fn(cls, name):
+        if cls not in fam or name not in fam[cls].__dict__:
+            raise P2.Untranslatable("%s.%s is not defined any more" % (cls, name))
+        return _plain(fam[cls].__dict__[name])
+
+    def default_of(cls, name, param):
+        d = T(P2.Rules2M()).defaults(fn(cls, name))
+        if param not in d:
+            raise P2.Untranslatable("parameter `%s` of %s.%s has no default" % (param, cls, name))
+        return _lean_bool(d[param], "%s.%s(%s)" % (cls, name, param))
+
+    # ---- the numpy words (order: the more specific pattern first)
+    NP = [
+        ("None", "pyNone"),
+        ("$x.copy()", "{x}"),
+        ("np.eye($n)", "(Arr2.eye {n})"), ("np.identity($n)", "(Arr2.eye {n})"),
+        ("np.asarray($x)", "{x}"), ("np.zeros($n)", "(npZeros {n})"), ("np.ones($n)", "(npOnes {n})"),
+        ("np.array($rows)", "(Arr2.ofRows {rows})"),
+        ("$s.h_matrix is not None", "({s}.h.isSome)"), ("$s.h_matrix is None", "({s}.h.isNone)"),
+        ("$s.h_matrix", "{s}.hm"), ("$s._h_matrix", "{s}.hm"),
+        ("$x.shape", "(pyShape {x})"), ("$x.size", "(pySize {x})"), ("np.size($x)", "(pySize {x})"),
+        ("len($x)", "(pyLen {x})"),
+        ("np.allclose($a, $b)", "(npAllclose {a} {b})"),
+        ("$x not in $l", "(!(pyIn {x} {l}))"), ("$x in $l", "(pyIn {x} {l})"),
+        ("$a[-1, :-1]", "(Arr2.lastRowInit {a})"), ("$a[:-1, :-1]", "(Arr2.initInit {a})"),
+        ("$a[:-1, -1]", "(Arr2.lastColInit {a})"), ("$a[$i, $j]", "(Arr2.at {a} {i} {j})"),
+        ("$a.diagonal()", "(Arr2.diagonal {a})"),
+        ("$v[:-1]", "(List.dropLast {v})"), ("$v[$i:]", "(pyDrop {v} {i})"), ("$v[$i]", "(pyItem {v} {i})"),
+        ("$v.reshape(($a, $b), order='F')", "(npReshapeF {v} {a} {b})", "bind"),
+        ("$v.reshape($sh)", "(npReshape {v} {sh})", "bind"),
+        ("np.finfo(float).eps", "((1 : Rat) / 4503599627370496)"),
+        ("np.dot($a, $b)", "(vdot {a} {b})"),
+        ("$p * np.sqrt($k)", "(SVec.mk {k} {p})"), ("np.outer($a, $a)", "(SVec.outerSelf {a})"),
+    ]
+    PROPS = [("$s.n_dims", "(callNDims t2 nDimsBodies {s})"), ("$s.linear_component", "(genLinearComponent {s})"),
+             ("$s.translation_component", "(genTranslationComponent {s})"),
+             ("$s.rotation_matrix", "(genRotationMatrix {s})")]
+    NPS = [
+        ("$s._h_matrix = None", "s", "({s}.clearH)"), ("$s._h_matrix = $v", "s", "({s}.setH {v})"),
+        ("$s._sync_target_from_state()", "s", "{s}"),             # writes the target only
+        ("$s._h_matrix[:-1, :-1] = $v", "s", "({s}.setLinBlock {v})", "bind"),
+        ("$s.h_matrix[:-1, -1] = $v", "s", "({s}.setTransCol {v})", "bind"),
+        ("np.fill_diagonal($s.h_matrix, $v)", "s", "({s}.fillDiag {v})", "bind"),
+        ("$s.h_matrix[$i, $j] = $v", "s", "({s}.setEntry {i} {j} {v})", "bind"),
+        ("$h[:-1, -1] = $v", "h", "(Arr2.setLastColInit {h} {v})", "bind"),
+        ("np.fill_diagonal($h, $v)", "h", "(Arr2.fillDiagonal {h} {v})"),
+        ("$h[:$k, :] += $m", "h", "(Arr2.addTopRows {h} {k} {m})", "bind"),
+        ("$h[:$k, $j] = $v", "h", "(Arr2.setColTop {h} {k} {j} {v})", "bind"),
+        ("$h[$i, $j] += $v", "h", "(Arr2.set {h} {i} {j} (Arr2.at {h} {i} {j} + {v}))"),
+        ("$h[$i, $j] = $v", "h", "(Arr2.set {h} {i} {j} {v})"),
+    ]
+    # calls of other translated bodies (keyword arguments in sorted order, see SrcTranslator)
+    CALLS = [
+        ("$s._set_h_matrix($v, copy=$c, skip_checks=$k)", "s", "(callSetH mt (setHFullBodies mt t2) {s} {v} {c} {k})", "bind"),
+        ("Affine._set_h_matrix($s, $v, copy=$c, skip_checks=$k)", "s", "(genSetHFull_Affine mt t2 {s} {v} {c} {k})", "bind"),
+        ("Homogeneous.__init__($s, $m, copy=$c, skip_checks=$k)", "s", "(genInit_Homogeneous mt t2 {s} {m} {c} {k})", "bind"),
+        ("Affine.__init__($s, $m, copy=$c, skip_checks=$k)", "s", "(genInit_Affine mt t2 {s} {m} {c} {k})", "bind"),
+        ("Similarity.__init__($s, $m, copy=$c, skip_checks=$k)", "s", "(genInit_Similarity mt t2 {s} {m} {c} {k})", "bind"),
+        ("$s.set_rotation_matrix($v, skip_checks=$k)", "s", "(callSetRot t2 (setRotBodies mt t2) {s} {v} {k})", "bind"),
+        ("Rotation.set_rotation_matrix($s, $v, skip_checks=$k)", "s", "(genSetRot_Rotation mt t2 {s} {v} {k})", "bind"),
+        ("Similarity._from_vector_inplace($s, $p)", "s", "(genFVI_Similarity mt t2 {s} {p})", "bind"),
+        ("Translation._from_vector_inplace($s, $p)", "s", "(genFVI_Translation mt t2 {s} {p})", "bind"),
+        ("UniformScale._from_vector_inplace($s, $p)", "s", "(genFVI_UniformScale mt t2 {s} {p})", "bind"),
+    ]
+
+    def R(expr=(), stmt=(), **kw):
+        kw.setdefault("raise_", None)
+        kw.setdefault("raise_by", SRC_EXC)
+        kw.setdefault("float_", _float3)
+        kw.setdefault("binop", {ast.Div: "({a} / {b})"})
+        return P2.Rules2M(expr=list(expr) + NP, stmt=list(stmt) + NPS, **kw)
+
+    INPLACE = dict(ret=".ok {self}", end=".ok {self}")        # an in-place method: what matters is the receiver afterwards
+    out = []
+    STUB = ".error .fuel"
+
+    def item(sig, stub, cls, name, rules, args, **kw):
+        out.append((sig, lambda: T(rules()).function(fn(cls, name), args, ind=1, **kw), stub))
+
+    # ---- properties
+    item("def genNDims (self : DObj) : Int :=", "-1", "Homogeneous", "n_dims", lambda: R(ret="{e}"), {"self": "self"})
+    out.append(("def nDimsBodies : List (Sup × (DObj → Int)) :=",
+                lambda: "  [(.Homogeneous, genNDims), (.Targetable, targetNDims)]", "[]"))
+    item("def genLinearComponent (self : DObj) : Arr2 :=", "Arr2.empty", "Affine", "linear_component",
+         lambda: R(ret="{e}"), {"self": "self"})
+    item("def genTranslationComponent (self : DObj) : List Rat :=", "[]", "Affine", "translation_component",
+         lambda: R(ret="{e}"), {"self": "self"})
+    item("def genRotationMatrix (self : DObj) : Arr2 :=", "Arr2.empty", "Rotation", "rotation_matrix",
+         lambda: R(PROPS, ret="{e}"), {"self": "self"})
+    item("def genUScale (self : DObj) : Rat :=", "0", "UniformScale", "scale", lambda: R(ret="{e}"), {"self": "self"})
+    item("def genNUScale (self : DObj) : List Rat :=", "[]", "NonUniformScale", "scale", lambda: R(ret="{e}"),
+         {"self": "self"})
+
+    # ---- _set_h_matrix of every class that supplies one, with copy / skip_checks as variables
+    mtab = dict(extract_c03.method_table())
+    col = {m: i for i, m in enumerate(extract_c03.METHODS)}
+
+    def suppliers(meth):
+        seen = []
+        for k in mtab:
+            if k.startswith(".fam"):
+                s = mtab[k][col[meth]]
+                if s is not None and s not in seen:
+                    seen.append(s)
+        return seen
+
+    SETH_ARGS = {"self": "self", "value": "value", "copy": "copy", "skip_checks": "skipchecks"}
+    seth = suppliers("_set_h_matrix")
+    for c in seth:
+        item("def genSetHFull_%s (mt : MethodTable) (t2 : MethodTable2) (self : DObj) (value : Arr2) (copy skipchecks : Bool) : Except Err DObj :=" % c, STUB,
+             c, "_set_h_matrix", lambda: R(PROPS, CALLS[1:2], **INPLACE), SETH_ARGS)
+    out.append(("def setHFullBodies (mt : MethodTable) (t2 : MethodTable2) : List (Sup × (DObj → Arr2 → Bool → Bool → Except Err DObj)) :=",
+                lambda: "  [%s]" % ", ".join("(.%s, genSetHFull_%s mt t2)" % (c, c) for c in seth), "[]"))
+
+    # ---- set_rotation_matrix
+    t2 = dict(method_table2())
+    col2 = {m: i for i, m in enumerate(METHODS2)}
+
+    def suppliers2(meth):
+        seen = []
+        for k, row in t2.items():
+            s = row[col2[meth]]
+            if s is not None and s not in seen:
+                seen.append(s)
+        return seen
+
+    setrot = suppliers2("set_rotation_matrix")
+    for c in setrot:
+        item("def genSetRot_%s (mt : MethodTable) (t2 : MethodTable2) (self : DObj) (value : Arr2) (skipchecks : Bool) : Except Err DObj :=" % c, STUB,
+             c, "set_rotation_matrix", lambda: R(PROPS, CALLS[6:7], **INPLACE),
+             {"self": "self", "value": "value", "skip_checks": "skipchecks"})
+    out.append(("def setRotBodies (mt : MethodTable) (t2 : MethodTable2) : List (Sup × (DObj → Arr2 → Bool → Except Err DObj)) :=",
+                lambda: "  [%s]" % ", ".join("(.%s, genSetRot_%s mt t2)" % (c, c) for c in setrot), "[]"))
+
+    # ---- __init__ of the seven non-alignment classes
+    MAT_ARGS = {"self": "self", "h_matrix": "hmatrix", "copy": "copy", "skip_checks": "skipchecks"}
+    MAT_SIG = "def genInit_%s (mt : MethodTable) (t2 : MethodTable2) (self : DObj) (hmatrix : Arr2) (copy skipchecks : Bool) : Except Err DObj :="
+    item(MAT_SIG % "Homogeneous", STUB, "Homogeneous", "__init__", lambda: R(PROPS, CALLS[0:1], **INPLACE), MAT_ARGS)
+    item(MAT_SIG % "Affine", STUB, "Affine", "__init__", lambda: R(PROPS, CALLS[2:3], **INPLACE), MAT_ARGS)
+    item(MAT_SIG % "Similarity", STUB, "Similarity", "__init__", lambda: R(PROPS, CALLS[3:4], **INPLACE), MAT_ARGS)
+    out.append(("def initMatBodies (mt : MethodTable) (t2 : MethodTable2) : List (Sup × (DObj → Arr2 → Bool → Bool → Except Err DObj)) :=",
+                lambda: "  [(.Homogeneous, genInit_Homogeneous mt t2), (.Affine, genInit_Affine mt t2), "
+                        "(.Similarity, genInit_Similarity mt t2)]", "[]"))
+    item("def genInit_Rotation (mt : MethodTable) (t2 : MethodTable2) (self : DObj) (rotationmatrix : Arr2) "
+         "(skipchecks : Bool) : Except Err DObj :=", STUB, "Rotation", "__init__",
+         lambda: R(PROPS, [CALLS[4], CALLS[5]], **INPLACE),
+         {"self": "self", "rotation_matrix": "rotationmatrix", "skip_checks": "skipchecks"})
+    item("def genInit_Translation (mt : MethodTable) (t2 : MethodTable2) (self : DObj) (translation : List Rat) (skipchecks : Bool) : "
+         "Except Err DObj :=", STUB, "Translation", "__init__", lambda: R(PROPS, CALLS[4:5], **INPLACE),
+         {"self": "self", "translation": "translation", "skip_checks": "skipchecks"})
+    item("def genInit_UniformScale (mt : MethodTable) (t2 : MethodTable2) (self : DObj) (scale : Rat) (ndims : Int) (skipchecks : Bool) : "
+         "Except Err DObj :=", STUB, "UniformScale", "__init__", lambda: R(PROPS, CALLS[4:5], **INPLACE),
+         {"self": "self", "scale": "scale", "n_dims": "ndims", "skip_checks": "skipchecks"})
+    item("def genInit_NonUniformScale (mt : MethodTable) (t2 : MethodTable2) (self : DObj) (scale : List Rat) (skipchecks : Bool) : "
+         "Except Err DObj :=", STUB, "NonUniformScale", "__init__", lambda: R(PROPS, CALLS[3:4], **INPLACE),
+         {"self": "self", "scale": "scale", "skip_checks": "skipchecks"})
+
+    # ---- init_identity: constructor calls with the LIVE defaults of copy / skip_checks
+    def ctor_rules():
+        dc = default_of("Homogeneous", "__init__", "copy")
+        dk = default_of("Homogeneous", "__init__", "skip_checks")
+        return R([
+            ("Homogeneous($m)", "(callInitMat t2 (initMatBodies mt t2) .Homogeneous {m} %s %s)" % (dc, dk), "bind"),
+            ("cls($m, copy=$c, skip_checks=$k)", "(callInitMat t2 (initMatBodies mt t2) cls {m} {c} {k})", "bind"),
+            ("Rotation($m)", "(genInit_Rotation mt t2 (DObj.new .Rotation) {m} %s)"
+             % default_of("Rotation", "__init__", "skip_checks"), "bind"),
+            ("Translation($v)", "(genInit_Translation mt t2 (DObj.new .Translation) {v} %s)"
+             % default_of("Translation", "__init__", "skip_checks"), "bind"),
+            ("UniformScale($s, $n)", "(genInit_UniformScale mt t2 (DObj.new .UniformScale) {s} {n} %s)"
+             % default_of("UniformScale", "__init__", "skip_checks"), "bind"),
+            ("NonUniformScale($v)", "(genInit_NonUniformScale mt t2 (DObj.new .NonUniformScale) {v} %s)"
+             % default_of("NonUniformScale", "__init__", "skip_checks"), "bind")], ret=".ok {e}")
+
+    ident = suppliers2("init_identity")
+    for c in ident:
+        item("def genIdentity_%s (mt : MethodTable) (t2 : MethodTable2) (cls : HCls) (ndims : Int) : Except Err DObj :=" % c,
+             STUB, c, "init_identity", ctor_rules, {"cls": "cls", "n_dims": "ndims"})
+    out.append(("def identityBodies (mt : MethodTable) (t2 : MethodTable2) : List (Sup × (HCls → Int → Except Err DObj)) :=",
+                lambda: "  [%s]" % ", ".join("(.%s, genIdentity_%s mt t2)" % (c, c) for c in ident), "[]"))
+
+    # ---- as_non_alignment once more, this time THROUGH the translated constructors and properties (round 2 translated it
+    #      over constructor words; here `Affine(m, skip_checks=True)` runs genInit_Affine, `self.rotation_matrix` runs
+    #      genRotationMatrix, ...)
+    def ana_rules():
+        dc = default_of("Homogeneous", "__init__", "copy")
+        return R([
+            ("Affine($m, skip_checks=$k)", "(callInitMat t2 (initMatBodies mt t2) .Affine {m} %s {k})" % dc, "bind"),
+            ("Similarity($m, skip_checks=$k)", "(callInitMat t2 (initMatBodies mt t2) .Similarity {m} %s {k})" % dc, "bind"),
+            ("Rotation($m, skip_checks=$k)", "(genInit_Rotation mt t2 (DObj.new .Rotation) {m} {k})", "bind"),
+            ("Translation($v)", "(genInit_Translation mt t2 (DObj.new .Translation) {v} %s)"
+             % default_of("Translation", "__init__", "skip_checks"), "bind"),
+            ("UniformScale($s, $n)", "(genInit_UniformScale mt t2 (DObj.new .UniformScale) {s} {n} %s)"
+             % default_of("UniformScale", "__init__", "skip_checks"), "bind"),
+            ("$s.scale", "(genUScale {s})")] + PROPS, ret=".ok {e}")
+
+    ana = suppliers("as_non_alignment")
+    for c in ana:
+        item("def genANA2_%s (mt : MethodTable) (t2 : MethodTable2) (self : DObj) : Except Err DObj :=" % c, STUB,
+             c, "as_non_alignment", ana_rules, {"self": "self"})
+    out.append(("def ana2Bodies (mt : MethodTable) (t2 : MethodTable2) : List (Sup × (DObj → Except Err DObj)) :=",
+                lambda: "  [%s]" % ", ".join("(.%s, genANA2_%s mt t2)" % (c, c) for c in ana), "[]"))
+
+    # ---- _from_vector_inplace of every class that supplies one
+    fvi = suppliers("_from_vector_inplace")
+    order = [c for c in ["Translation", "UniformScale", "NonUniformScale", "Homogeneous", "Affine", "Similarity", "Rotation"]
+             if c in fvi] + [c for c in fvi if c.startswith("Alignment")]
+    order += [c for c in fvi if c not in order]
+    for c in order:
+        pname = P2.source_ast(fn(c, "_from_vector_inplace"))[0].args.args[1].arg \
+            if c in fam and "_from_vector_inplace" in fam[c].__dict__ else "p"
+        item("def genFVI_%s (mt : MethodTable) (t2 : MethodTable2) (self : DObj) (p : List Rat) : Except Err DObj :=" % c,
+             STUB, c, "_from_vector_inplace", lambda: R(PROPS, [CALLS[0], CALLS[5]] + CALLS[7:], **INPLACE),
+             {"self": "self", pname: "p"})
+    out.append(("def fviBodies (mt : MethodTable) (t2 : MethodTable2) : List (Sup × (DObj → List Rat → Except Err DObj)) :=",
+                lambda: "  [%s]" % ", ".join("(.%s, genFVI_%s mt t2)" % (c, c) for c in order), "[]"))
+
+    # ---- Homogeneous._compose_before_inplace / _compose_after_inplace once more, on TYPED matrices (Core/C03Dtype.lean):
+    #      which dtype the product has and that it is stored as it is.  A cast (`.astype(self.h_matrix.dtype)`) has a
+    #      word too, so that such a change is translated and then refuted by the obligation instead of being refused.
+    def typed_rules():
+        return P2.Rules2M(
+            expr=[("np.dot($x.h_matrix, $y.h_matrix)", "(TMat.dot {x} {y})"),
+                  ("$m.astype($s.h_matrix.dtype)", "(TMat.astype {m} {s}.dt)"), ("$m.copy()", "{m}")],
+            stmt=[("$s._set_h_matrix($m, copy=$c, skip_checks=$k)", "s", "{m}")],      # stores the array it is given
+            raise_=None, raise_by=SRC_EXC, ret="{self}", end="{self}")
+
+    def typed_body():
+        from menpo.transform.homogeneous.base import Homogeneous
+        arms = []
+        for direction in ("before", "after"):
+            f = Homogeneous.__dict__["_compose_%s_inplace" % direction]
+            arms.append("  | .%s, self, transform =>\n%s" % (
+                direction, T(typed_rules()).function(f, {"self": "self", "transform": "transform"}, ind=2)))
+        return "\n".join(arms)
+    out.append(("def genInplaceT {d : Nat} : Dir → TMat (d + 1) → TMat (d + 1) → TMat (d + 1)", typed_body,
+                "  | _, self, _ => ⟨.float64, self.M⟩"))
+
+    # ---- the second method table and the defaults
+    def table2():
+        rows = []
+        for n, sup in method_table2():
+            rows.append("  (.%s, [%s])" % (n, ", ".join("none" if s is None else "some .%s" % s for s in sup)))
+        return "  [\n" + ",\n".join(rows) + "]"
+    out.append(("def methodTable2 : MethodTable2 :=", table2, "[]"))
+
+    def defaults():
+        rows = []
+        for c, m in (("Homogeneous", "__init__"), ("Affine", "__init__"), ("Similarity", "__init__"),
+                     ("Homogeneous", "_set_h_matrix"), ("Affine", "_set_h_matrix"), ("AlignmentAffine", "_set_h_matrix")):
+            rows.append('("%s.%s", %s, %s)' % (c, m, default_of(c, m, "copy"), default_of(c, m, "skip_checks")))
+        for c, m in (("Rotation", "__init__"), ("Translation", "__init__"), ("UniformScale", "__init__"),
+                     ("NonUniformScale", "__init__"), ("Rotation", "set_rotation_matrix"),
+                     ("AlignmentRotation", "set_rotation_matrix")):
+            rows.append('("%s.%s", true, %s)' % (c, m, default_of(c, m, "skip_checks")))
+        return "  [" + ",\n   ".join(rows) + "]"
+    out.append(("def ctorDefaults : List (String × Bool × Bool) :=", defaults, "[]"))
+    return out
+
+
+SRC_HEADER = """/- TRANSLATED by harness/trans_c03.py (harness/py2lean2.py) from the SOURCE TEXT of menpo/transform/homogeneous/*.py of
+   the current working tree on every run of `./check C03`: the properties, `_set_h_matrix` / `set_rotation_matrix`,
+   the constructors with their checks, `init_identity` and `_from_vector_inplace` of the homogeneous family, the method
+   resolution of `__init__` / `set_rotation_matrix` / `init_identity` / the properties, the defaults of `copy` and
+   `skip_checks`.  Do not edit.  GenProps/C03Src.lean proves the definitions equal to the model. -/
+import MenpoModel.Core.C03Src
+import MenpoModel.Core.C03Dtype
+set_option linter.unusedVariables false
+
+namespace MenpoModel.Generated.C03
+open MenpoModel.C03 MenpoModel.C03.Src
+"""
+SRC_FOOTER = "end MenpoModel.Generated.C03\n"
+
+
+def src_generated_files():
+    """({relative path: text}, [reasons of the definitions that could not be translated])"""
+    try:
+        items = src_items()
+    except (P2.Untranslatable, KeyError, AttributeError, IndexError) as e:
+        items, pre = [], ["src_items: %r" % (e,)]
+    else:
+        pre = []
+    safe = []
+    for sig, thunk, stub in items:
+        def wrapped(thunk=thunk):
+            try:
+                return thunk()
+            except (KeyError, AttributeError, IndexError) as e:
+                raise P2.Untranslatable(repr(e))
+        safe.append((sig, wrapped, stub))
+    text, reasons = P2.translate_or_stub(safe, SRC_HEADER, SRC_FOOTER)
+    return {SRC_REL: text}, pre + reasons
